@@ -456,7 +456,7 @@ func refConflicts(used map[string]bool, name string) bool {
 
 var refNamespaces = []string{"refs/heads/", "refs/heads/", "refs/tags/", "refs/tags/", "refs/remotes/origin/", "refs/remotes/up/", "refs/notes/", "refs/pull/", "refs/changes/", "refs/", "refs/foo/", "refs/headstrong/", "refs/tagsx/"}
 var refLeaves = []string{"main", "master", "dev", "feature/a", "feature/b", "v1", "v1.0", "release-1.2.3", "release-1.22.333", "x", "foo", "foobar", "foo/bar", "1/head", "2/merge", "12/3456/7", "commits", "heads", "stash"}
-var exoticRefLeaves = []string{"q\"uote", "it's", "pi|pe", "(paren)", "caf\xc3\xa9", "\xff\xfe", "a,b", "a;b", "a&b", "a$b", "a%sb", "a#b", "{x}", "<x>", "a=b", "a+b", "@", "a@b", "-dash", "a!b", "\xe2\x88\x9e", "x]"}
+var exoticRefLeaves = []string{"q\"uote", "it's", "pi|pe", "(paren)", "caf\xc3\xa9", "\xff\xfe", "a,b", "a;b", "a&b", "a$b", "a%sb", "a#b", "{x}", "<x>", "a=b", "a+b", "@", "a@b", "-dash", "a!b", "\xe2\x88\x9e", "x]", "nb\u00a0sp", "cjk\u3000space", "nel\u0085x", "em\u2003sp", "zw\u200bsp", "bom\ufeffx"}
 
 func (g G) refName(exotic bool) string {
 	if g.Chance(1, 12, "stashref") {
